@@ -62,6 +62,7 @@ func c02(r *hx.Run) {
 		{[]string{"C", "U01", "U01b", "U01i"}, g6, true},    // three operations compete for one commitment
 		{[]string{"C", "R01", "R01b", "D0"}, g6, true},
 		{[]string{"C", "U01", "U01b", "U12", "U1b2"}, g4[:4], false},
+		{[]string{"C~x", "C", "U01"}, g9, true}, // a stored create that the applier refuses is skipped: the next create defines the DID
 	}
 	if r.Tier == "thorough" {
 		shapes = append(shapes,
